@@ -1,7 +1,7 @@
 (* C14 — the theorems about the Merge transition system, derived from the
    invariants of Proofs/Merge.v and Proofs/MergeLin.v; capability CAS; several
    tags as a product of independent copies. *)
-From Oras Require Import Base.Prelude Model.Referrers Proofs.Referrers Model.Merge Proofs.Merge Proofs.MergeLin.
+From Oras Require Import Base.Prelude Generated.GC14 Model.Referrers Proofs.Referrers Model.Merge Proofs.Merge Proofs.MergeLin.
 From Coq Require Import Lia.
 
 (* ---------- at most one main; Pool reference counting ---------- *)
@@ -91,18 +91,22 @@ Qed.
 
 Definition del_failed (e : event) : bool := match e with EDel _ true => true | _ => false end.
 
-Lemma junk_step s e s' : step false s e = Some s' -> del_failed e = false -> junk s' = junk s.
+(* a PUT that took effect although the client saw an error leaves the old index behind *)
+Definition put_lost (e : event) : bool := match e with EPutLost _ => true | _ => false end.
+Definition gc_ok (e : event) : bool := negb (del_failed e) && negb (put_lost e).
+
+Lemma junk_step s e s' : step false s e = Some s' -> gc_ok e = true -> junk s' = junk s.
 Proof.
-  intros H Hd. destruct e; simpl in H; step_inv H; auto; try discriminate.
+  unfold gc_ok. intros H Hd. destruct e; simpl in H; step_inv H; auto; try discriminate.
 Qed.
 
 Lemma junk_run tr : forall s s',
-  run false s tr = Some s' -> forallb (fun e => negb (del_failed e)) tr = true -> junk s' = junk s.
+  run false s tr = Some s' -> forallb gc_ok tr = true -> junk s' = junk s.
 Proof.
   induction tr as [|e tr IH]; intros s s' H F; simpl in *.
   - now injection H as <-.
   - destruct (step false s e) as [s1|] eqn:E; [|discriminate].
-    apply andb_true_iff in F as [F1 F2]. apply negb_true_iff in F1.
+    apply andb_true_iff in F as [F1 F2].
     rewrite (IH s1 s' H F2). eapply junk_step; eauto.
 Qed.
 
@@ -111,7 +115,7 @@ Qed.
    at the start (it is not the initial index: that one has been deleted) *)
 Lemma gc_clean r0 st0 tr s :
   run false (init r0 st0) tr = Some s ->
-  forallb (fun e => negb (del_failed e)) tr = true ->
+  forallb gc_ok tr = true ->
   (forall t, is_main (pcs s t) = false) ->
   forall x, In x (store s) -> reg s = Some x \/ (In x st0 /\ r0 <> Some x).
 Proof.
@@ -122,20 +126,21 @@ Qed.
 
 (* junk grows by exactly one entry per failed index deletion *)
 Lemma junk_count_step s e s' :
-  step false s e = Some s' ->
+  step false s e = Some s' -> put_lost e = false ->
   length (junk s') = (length (junk s) + (if del_failed e then 1 else 0))%nat.
 Proof.
-  intros H. destruct e; simpl in H; step_inv H; simpl; auto; try lia; try discriminate.
+  intros H L. destruct e; simpl in H; step_inv H; simpl; auto; try lia; try discriminate.
 Qed.
 
 Lemma junk_count tr : forall s s',
-  run false s tr = Some s' ->
+  run false s tr = Some s' -> forallb (fun e => negb (put_lost e)) tr = true ->
   length (junk s') = (length (junk s) + length (filter del_failed tr))%nat.
 Proof.
-  induction tr as [|e tr IH]; intros s s' H; simpl in *.
+  induction tr as [|e tr IH]; intros s s' H L; simpl in *.
   - injection H as <-. lia.
   - destruct (step false s e) as [s1|] eqn:E; [|discriminate].
-    rewrite (IH s1 s' H), (junk_count_step _ _ _ E). destruct (del_failed e); simpl; lia.
+    apply andb_true_iff in L as [L1 L2]. apply negb_true_iff in L1.
+    rewrite (IH s1 s' H L2), (junk_count_step _ _ _ E L1). destruct (del_failed e); simpl; lia.
 Qed.
 
 (* ---------- SetReferrersCapability ---------- *)
@@ -325,10 +330,20 @@ Proof.
     + split; [apply mu_upd; auto; rewrite Hpc; simpl; lia | now apply holding_upd_keep].
     + split; [apply mu_upd; auto; rewrite Hpc; unfold after_put; destruct sg; [simpl; lia|]; destruct o; simpl; lia
              | now apply holding_upd_keep].
+  - (* EPutLost *)
+    destruct (pcs s t) as [|c0| | |old|nw o|oi ap|r|r|r] eqn:Hpc; try discriminate.
+    assert (Hin : In t L) by (apply HL; rewrite Hpc; reflexivity).
+    injection H as <-; simpl.
+    split; [apply mu_upd; auto; rewrite Hpc; simpl; lia | now apply holding_upd_keep].
   - (* EDel *)
     destruct (pcs s t) as [|c0| | |old|nw o|oi ap|r|r|r] eqn:Hpc; try discriminate.
     assert (Hin : In t L) by (apply HL; rewrite Hpc; reflexivity).
     destruct fail; [|destruct ap]; injection H as <-; simpl;
+      (split; [apply mu_upd; auto; rewrite Hpc; simpl; lia | now apply holding_upd_keep]).
+  - (* EDelLost *)
+    destruct (pcs s t) as [|c0| | |old|nw o|oi ap|r|r|r] eqn:Hpc; try discriminate.
+    assert (Hin : In t L) by (apply HL; rewrite Hpc; reflexivity).
+    destruct ap; injection H as <-; simpl;
       (split; [apply mu_upd; auto; rewrite Hpc; simpl; lia | now apply holding_upd_keep]).
   - (* EComplete *)
     destruct (pcs s t) as [|c0| | |old|nw o|oi ap|r|r|r] eqn:Hpc; try discriminate.
@@ -477,4 +492,116 @@ Lemma sequential_listing_is_live cs : forall st,
 Proof.
   induction cs as [|c t IH]; intros st F T; simpl; auto.
   inversion F; subst. apply IH; auto. now apply seq_op_tracks.
+Qed.
+
+(* ---------- every detection path goes through the compare-and-swap ---------- *)
+
+(* regenerated from the Go sources (tools/gosrc2v kind c14_field_uses): Repository.referrersState
+   is only ever read with atomic.LoadInt32 and written by
+   atomic.CompareAndSwapInt32(&r.referrersState, referrersStateUnknown, _) *)
+Lemma capability_single_writer :
+  GC14.referrersState_other = 0%Z /\ (0 < GC14.referrersState_cas_from_unknown)%Z.
+Proof. split; [reflexivity|reflexivity]. Qed.
+
+(* hence, whatever pingReferrers / Referrers() / checkOCISubjectHeader / indexReferrersForPush
+   request and in whatever order their compare-and-swaps are linearised, the state follows
+   set_caps: it takes the first requested value and keeps it *)
+Lemma capability_all_paths :
+  GC14.referrersState_other = 0%Z /\
+  forall (requests : list bool),
+    match set_caps CapUnknown requests with
+    | [] => requests = []
+    | (s0, e0) :: rest => e0 = false /\ s0 <> CapUnknown /\ Forall (fun x => fst x = s0) rest
+    end.
+Proof.
+  split; [reflexivity|]. intros [|b l]; simpl; auto.
+  repeat split; [destruct b; discriminate|]. apply set_caps_monotone. destruct b; discriminate.
+Qed.
+
+(* ---------- lost response of the index PUT ---------- *)
+
+(* a caller that got a plain error after a lost response: the ghost result RLost *)
+Definition has_lost (p : pc) : bool :=
+  match p with Completing RLost | Ret RLost | Done RLost => true | _ => false end.
+
+(* an index exchange that took effect although the client saw an error *)
+Definition resp_lost (e : event) : bool := match e with EPutLost _ | EDelLost _ => true | _ => false end.
+
+Lemma lost_step sg s e s' :
+  step sg s e = Some s' -> resp_lost e = false ->
+  (forall t, has_lost (pcs s t) = false) -> forall t, has_lost (pcs s' t) = false.
+Proof.
+  intros H L A x. destruct e; try discriminate; simpl in H.
+  all: try (destruct (pcs s t) as [|c0| | |old|nw o|oi ap|r|r|r] eqn:Hpc; try discriminate).
+  all: try (assert (Hr : has_lost (pcs s t) = false) by apply A; rewrite Hpc in Hr).
+  all: step_inv H; auto.
+  all: try solve [unfold upd; destruct (Nat.eqb x t); auto; try apply A].
+  all: try solve [unfold upd; destruct (Nat.eqb x t); [|apply A]; destruct r; auto; discriminate].
+  all: try solve [destruct (Nat.eqb x t); [destruct r; auto; discriminate|];
+                  destruct (mem x (batch s)); [destruct r; auto; discriminate|apply A]].
+  unfold upd, after_put. destruct (Nat.eqb x t); [|apply A]. destruct sg; auto. destruct o; auto.
+Qed.
+
+Lemma lost_run sg tr : forall s s',
+  run sg s tr = Some s' -> forallb (fun e => negb (resp_lost e)) tr = true ->
+  (forall t, has_lost (pcs s t) = false) -> forall t, has_lost (pcs s' t) = false.
+Proof.
+  induction tr as [|e tr IH]; intros s s' H L A; simpl in *.
+  - now injection H as <-.
+  - destruct (step sg s e) as [s1|] eqn:E; [|discriminate].
+    apply andb_true_iff in L as [L1 L2]. apply negb_true_iff in L1.
+    apply (IH s1 s' H L2). eapply lost_step; eauto.
+Qed.
+
+
+(* 1. a registry that answers truthfully (no lost response): a call that returned a plain
+      error had NO effect - the index is the fold of exactly the calls that did not *)
+Lemma plain_error_no_effect sg r0 st0 tr s t r :
+  run sg (init r0 st0) tr = Some s -> forallb (fun e => negb (resp_lost e)) tr = true ->
+  (pcs s t = Ret r \/ pcs s t = Done r) ->
+  (In t (lin s) <-> seen r <> RErr).
+Proof.
+  intros H L E. destruct (returned_effect sg r0 st0 tr s t r H E) as [A _].
+  assert (Hl : has_lost (pcs s t) = false) by (eapply lost_run; eauto).
+  destruct E as [E|E]; rewrite E in Hl; destruct r; simpl in *; try discriminate; exact A.
+Qed.
+
+(* 2. with lost responses: a call that returned nil or the index-delete error took effect
+      (never lost); a call that returned a plain error may or may not have taken effect, and
+      it did iff the response of its batch's PUT was lost *)
+Lemma seen_effect sg r0 st0 tr s t r :
+  run sg (init r0 st0) tr = Some s -> (pcs s t = Ret r \/ pcs s t = Done r) ->
+  (seen r <> RErr -> In t (lin s)) /\ (seen r = RErr -> (In t (lin s) <-> r = RLost)).
+Proof.
+  intros H E. destruct (returned_effect sg r0 st0 tr s t r H E) as [A _].
+  split.
+  - intro Hs. apply A. destruct r; simpl in *; congruence.
+  - intros Hs. rewrite A. destruct r; simpl in *; split; congruence.
+Qed.
+
+(* ---------- the Pool entry is a reference count ---------- *)
+
+(* every step moves the [pool] field as pool_get / pool_put say; a fresh entry is a zero Merge *)
+Lemma pool_is_refcount sg s e s' :
+  step sg s e = Some s' ->
+  match e with
+  | EGet _ _ => pool s' = fst (pool_get (pool s)) /\
+                (snd (pool_get (pool s)) = true ->
+                 items s' = [] /\ pending s' = [] /\ committed s' = false /\ token s' = false)
+  | EDone _ => pool s' = pool_put (pool s)
+  | _ => pool s' = pool s
+  end.
+Proof.
+  intro H. destruct e; simpl in H; step_inv H; simpl; auto; try discriminate.
+  split; auto. discriminate.
+Qed.
+
+(* two holders never see two entries: while somebody holds the entry, Get does not create one *)
+Lemma pool_shared sg r0 st0 tr s t c s' :
+  run sg (init r0 st0) tr = Some s -> (exists x, holding (pcs s x) = true) ->
+  step sg s (EGet t c) = Some s' -> snd (pool_get (pool s)) = false.
+Proof.
+  intros H (x & Hx) Hs. destruct (reachable_inv _ _ _ _ _ H) as [I _].
+  destruct (pool s) eqn:Ep; [reflexivity|]. exfalso.
+  destruct (pool_none s I Ep) as (Hn & _). rewrite Hn in Hx. discriminate.
 Qed.
